@@ -646,6 +646,12 @@ Definition fac_check (x : fac_case) : nat :=
     let accepted := match ictor with Ok _ => true | Err _ => false end in
     if negb (match to_tensor w with Ok t => tensor_wf t | Err _ => true end) then 2
     else if negb (ctor_oracle doms w accepted) then 1
+    else if (match ictor, to_tensor w with
+             | Ok _, Ok t =>
+               (* apply returns the weight THAT WAS GIVEN (not a converted or rounded copy of it) *)
+               negb (forallb (fun a => negb (forallb good_dom doms) || apply_oracle doms t (fst a) (snd a)) iapps)
+             | _, _ => false
+             end) then 1
     else
       let m := mk_finite_factor doms w in
       if negb (result_eqb fac_same ictor m) then 10
